@@ -47,6 +47,8 @@ pub enum BaseStream {
     },
     #[cfg(test)]
     Mock(Cursor<Vec<u8>>),
+    #[cfg(feature = "verif-hooks")]
+    Scripted(Box<dyn crate::verif_hooks::Transport>),
 }
 
 impl BaseStream {
@@ -59,6 +61,10 @@ impl BaseStream {
         debug!("trying to connect to {}:{}", host, port);
 
         let stream = match connect_url.scheme() {
+            #[cfg(feature = "verif-hooks")]
+            scheme if crate::verif_hooks::dial_prepare(scheme, &host.to_string(), port, info) => {
+                crate::verif_hooks::dial_take().map(BaseStream::Scripted)
+            }
             "http" => BaseStream::connect_tcp(&host, port, info)
                 .map(|(stream, timeout)| BaseStream::Plain { stream, timeout }),
             "https" => BaseStream::connect_tls(&host, port, info),
@@ -193,6 +199,8 @@ impl Read for BaseStream {
             BaseStream::Tunnel { stream } => stream.read(buf),
             #[cfg(test)]
             BaseStream::Mock(s) => s.read(buf),
+            #[cfg(feature = "verif-hooks")]
+            BaseStream::Scripted(s) => s.read(buf),
         }
     }
 }
@@ -204,6 +212,8 @@ impl Write for BaseStream {
             BaseStream::Plain { stream, .. } => stream.write(buf),
             BaseStream::Tls { stream, .. } => stream.write(buf),
             BaseStream::Tunnel { stream } => stream.write(buf),
+            #[cfg(feature = "verif-hooks")]
+            BaseStream::Scripted(s) => s.write(buf),
             #[cfg(test)]
             _ => Ok(0),
         }
@@ -215,6 +225,8 @@ impl Write for BaseStream {
             BaseStream::Plain { stream, .. } => stream.flush(),
             BaseStream::Tls { stream, .. } => stream.flush(),
             BaseStream::Tunnel { stream } => stream.flush(),
+            #[cfg(feature = "verif-hooks")]
+            BaseStream::Scripted(s) => s.flush(),
             #[cfg(test)]
             _ => Ok(()),
         }
